@@ -112,6 +112,19 @@ def faults():
         return ocp
     F["set_value-on-a-state"] = value_on_state
 
+    def value_on_variable(kind):
+        def f(m):
+            from rockit import Ocp
+            ocp, s = _ok(m)
+            w = ocp.variable() if kind == "global" else ocp.variable(grid="control", include_last=(kind == "control+"))
+            ocp.subject_to(w + s["x"][0] <= 5)
+            ocp.set_value(w, 3.0)         # FAULT: a decision variable is not a parameter
+            return ocp
+        return f
+    for kind in ("global", "control", "control+"):
+        F["set_value-on-a-%s-variable" % kind] = value_on_variable(kind)
+    F["set_value-on-a-control"] = lambda m: (lambda os: (os[0].set_value(os[1]["u"], 1.0), os[0])[1])(_ok(m))
+
     def value_on_foreign(m):
         ocp, s = _ok(m)
         ocp.set_value(ca.MX.sym("alien"), 1.0)
